@@ -5,6 +5,7 @@ import (
 	"go/ast"
 	"go/token"
 	"go/types"
+	"regexp"
 	"strings"
 
 	"gpverif/core"
@@ -780,22 +781,73 @@ func c25Names(r *core.Run, p *core.Prog) {
 			}
 		}
 	}
+	// the backup name: the target of the rename that moves the existing day away in commitStagedDay, built by fmt.Sprintf from
+	// the day path, constant parts and a number — evaluated here with representative values for the non-constant parts
+	backupName, backupNameNoSuffix := "", ""
 	if f := p.Func(pkgGoDB, "commitStagedDay"); f != nil {
+		info := f.Info()
 		for _, c := range core.Calls(f.Decl.Body, true) {
-			if core.CallName(f.Info(), c) == "fmt.Sprintf" && len(c.Args) >= 1 {
-				if s, ok := core.ConstStr(f.Info(), c.Args[0]); ok && strings.Contains(s, "backup") {
-					backupPat = s
+			if core.CallName(info, c) != "os.Rename" || len(c.Args) != 2 || backupPat != "" {
+				continue
+			}
+			sp, ok := ast.Unparen(resolveLocal(info, f.Decl.Body, c.Args[1])).(*ast.CallExpr)
+			if !ok || core.CallName(info, sp) != "fmt.Sprintf" || len(sp.Args) < 2 {
+				// the variable is declared first and assigned later: find its Sprintf assignment
+				if o := core.ObjOf(info, c.Args[1]); o != nil {
+					core.Walk(f.Decl.Body, true, func(x ast.Node) bool {
+						if a, isA := x.(*ast.AssignStmt); isA && len(a.Lhs) == 1 && len(a.Rhs) == 1 && core.ObjOf(info, a.Lhs[0]) == o {
+							if cc, isC := ast.Unparen(a.Rhs[0]).(*ast.CallExpr); isC && core.CallName(info, cc) == "fmt.Sprintf" {
+								sp, ok = cc, true
+							}
+						}
+						return true
+					})
+				}
+				if !ok || sp == nil || core.CallName(info, sp) != "fmt.Sprintf" {
+					continue
+				}
+			}
+			format, okF := core.ConstStr(info, sp.Args[0])
+			if !okF {
+				continue
+			}
+			render := func(day string) (string, string) {
+				var args []any
+				constPart := ""
+				for _, a := range sp.Args[1:] {
+					if v, okc := core.ConstStr(info, a); okc {
+						args = append(args, v)
+						if len(v) > len(constPart) {
+							constPart = v
+						}
+						continue
+					}
+					if bt, okb := info.TypeOf(a).Underlying().(*types.Basic); okb && bt.Info()&types.IsString != 0 {
+						args = append(args, day)
+					} else {
+						args = append(args, int64(1700000000000000))
+					}
+				}
+				return fmt.Sprintf(format, args...), constPart
+			}
+			var cp string
+			backupName, cp = render("1700006400_AbCdEf-x-y-z-1-2-3")
+			backupNameNoSuffix, _ = render("1700006400")
+			// the reserved marker: the longest constant piece (of the format or of a constant argument)
+			backupPat = cp
+			for _, piece := range regexp.MustCompile(`%[-+# 0]*[0-9]*(\.[0-9]+)?[a-zA-Z]`).Split(format, -1) {
+				if len(piece) > len(backupPat) {
+					backupPat = piece
 				}
 			}
 		}
 	}
 	if stagePat == "" || backupPat == "" {
-		r.Undecided(rule, "reserved-patterns", "-", fmt.Sprintf("stage pattern %q / backup pattern %q not found as constants", stagePat, backupPat))
+		r.Undecided(rule, "reserved-patterns", "-", fmt.Sprintf("stage pattern %q / backup marker %q not found as constants", stagePat, backupPat))
 		return
 	}
-	stageName := strings.Replace(stagePat, "*", "123456", 1)                                       // a directory in the DB root
-	backupName := fmt.Sprintf(backupPat, "1700006400_AbCdEf-x-y-z-1-2-3", int64(1700000000000000)) // next to a day directory
-	backupNameNoSuffix := fmt.Sprintf(backupPat, "1700006400", int64(1700000000000000))
+	stageMarker := strings.TrimRight(stagePat, "*")
+	stageName := strings.Replace(stagePat, "*", "123456", 1) // a directory in the DB root
 	r.Note("reserved names evaluated: %q (DB root), %q and %q (month directory)", stageName, backupName, backupNameNoSuffix)
 	type lister struct {
 		rel, fn string
@@ -833,7 +885,13 @@ func c25Names(r *core.Run, p *core.Prog) {
 					if pat, ok := core.ConstStr(info, c.Args[1]); ok && pat != "" {
 						for _, nm := range names {
 							hit := (cn == "strings.HasPrefix" && strings.HasPrefix(nm, pat)) || (cn == "strings.HasSuffix" && strings.HasSuffix(nm, pat)) || (cn == "strings.Contains" && strings.Contains(nm, pat))
-							if hit && (strings.Contains(pat, "gpdb-merge") || strings.Contains(".gpdb-merge", pat)) {
+							// the predicate must be about the reserved marker (or a part of it such as the hidden-entry dot), not about
+							// something the representative name happens to contain
+							marker := stageMarker
+							if l.level == "day" {
+								marker = backupPat
+							}
+							if hit && (strings.Contains(pat, strings.Trim(marker, ".-_")) || strings.Contains(marker, pat)) {
 								rejects[nm] = true
 							}
 						}
